@@ -125,6 +125,18 @@ def spec_call(engine, st, name, node):
         dflt = engine.eval(st, node.args[2])
         mp = as_map(d)
         return Ty.ite(mp.c[0][k], engine.mapval(mp, k), engine.coerce(dflt, mp.t.v))
+    if name == "is_neginf":
+        v = engine.eval(st, node.args[0])
+        if isinstance(v, V) and isinstance(v.t, Ty.Opt):
+            return Ty.mk_bool(v.c[0])
+        if isinstance(v, PyConst):
+            return Ty.mk_bool(v.val == -float("inf"))
+        return Ty.mk_bool(False)
+    if name == "unopt":
+        v = engine.eval(st, node.args[0])
+        if isinstance(v.t, Ty.Opt):
+            return V(v.t.t, v.c[1:])
+        return v
     if name == "fresh_ref":
         # fresh_ref(x): x is a heap object allocated during the call
         v = engine.eval(st, node.args[0])
@@ -400,6 +412,11 @@ def builtin_call(engine, st, name, node):
                 if c is not None:
                     return c
                 raise Unsupported(f"{name} of a container")
+        if name == "max" and len(args) == 2 and any(isinstance(a, V) and isinstance(a.t, Ty.Opt) for a in args):
+            # max over extended integers (None == -inf)
+            a, b = [engine.coerce(x, Ty.Opt(Int)) for x in args]
+            bigger = z3.If(a.c[1] >= b.c[1], a.c[1], b.c[1])
+            return V(Ty.Opt(Int), [z3.And(a.c[0], b.c[0]), z3.If(a.c[0], b.c[1], z3.If(b.c[0], a.c[1], bigger))])
         real = any(isinstance(a.t, Ty._Real) for a in args)
         ts = [engine.num(a) for a in args]
         if real:
@@ -422,7 +439,7 @@ def builtin_call(engine, st, name, node):
     if name == "float":
         x = engine.eval(st, node.args[0])
         if isinstance(x, PyConst) and x.val in ("inf", "-inf"):
-            return engine.infinity(x.val == "-inf")
+            return PyConst(float(x.val))
         return engine.coerce(x, Real)
     if name == "bool":
         return Ty.mk_bool(engine.truth(st, engine.eval(st, node.args[0])))
